@@ -234,12 +234,110 @@ def bounded(run):
                     fails.append((simname, "disjoint-commutation", None, None))
             except Exception as e:
                 fails.append((simname, f"raised {type(e).__name__}: {e}"[:160], None, None))
+    # deterministic routing: a number state through a permutation interferometer has ONE outcome; post-selection and
+    # measurement tuples in every order must read the right modes (relabelling of the ORDER of a mode tuple)
+    d = 4
+    routes = [(0, 1, 3, 2), (2, 0, 3, 1)] if run.tier == "quick" else list(itertools.permutations(range(4)))[1::4]
+    for route in routes:
+        U = np.zeros((d, d), dtype=complex)
+        for in_, out in enumerate(route):
+            U[out, in_] = 1.0
+        occ_in = (1, 2, 0, 1) if run.tier != "quick" else (1, 1, 0, 1)
+        occ_out = [0] * d
+        for in_, out in enumerate(route):
+            occ_out[out] = occ_in[in_]
+        sims = {
+            "PassiveSimulator": lambda: pq.PassiveSimulator(d=d, config=pq.Config(seed_sequence=3)),
+            "PureFockSimulator": lambda: pq.PureFockSimulator(d=d, config=pq.Config(seed_sequence=3, cutoff=sum(occ_in) + 1)),
+            "FockSimulator": lambda: pq.FockSimulator(d=d, config=pq.Config(seed_sequence=3, cutoff=sum(occ_in) + 1)),
+        }
+        for simname, mk in sims.items():
+            prep = [pq.DensityMatrix(ket=occ_in, bra=occ_in)] if simname == "FockSimulator" else [pq.NumberState(list(occ_in))]
+            cases = []
+            for r in (1, 2, 3, 4):
+                for meas in itertools.permutations(range(d), r):
+                    cases.append((None, meas))
+            if simname != "FockSimulator":
+                for post in itertools.permutations(range(d), 2):
+                    rest = [m for m in range(d) if m not in post]
+                    for meas in [tuple(rest), tuple(rest[::-1]), (rest[0],), (rest[1],)]:
+                        cases.append((post, meas))
+            if run.tier == "quick":
+                cases = cases[::3]
+            for post, meas in cases:
+                ins = prep + [pq.Interferometer(U)]
+                if post is not None:
+                    ins.append(pq.PostSelectPhotons(photon_counts=tuple(occ_out[m] for m in post)).on_modes(*post))
+                ins.append(pq.ParticleNumberMeasurement().on_modes(*meas))
+                want = tuple(occ_out[m] for m in meas)
+                try:
+                    res = mk().execute_instructions(ins, shots=3)
+                    got = sorted({tuple(int(x) for x in smp)[-len(meas):] for smp in res.samples})
+                    ev += 1
+                    if got != [want]:
+                        fails.append((simname, "deterministic-routing", {"route": route, "postselect": post, "measure": meas}, {"got": got, "want": want}))
+                except pq.api.exceptions.InvalidSimulation:
+                    continue
+                except Exception as e:      # noqa: BLE001
+                    fails.append((simname, f"deterministic-routing raised {type(e).__name__}: {e}"[:160], {"postselect": post, "measure": meas}, None))
+        distinct.add(("routing", route))
+    # FockState.reduced on every ordered mode tuple
+    try:
+        st_ = pq.FockSimulator(d=3, config=pq.Config(cutoff=4)).execute_instructions([pq.DensityMatrix(ket=(1, 0, 2), bra=(1, 0, 2))]).state
+        for r in (1, 2, 3):
+            for modes in itertools.permutations(range(3), r):
+                red = st_.reduced(modes)
+                probs = np.asarray(red.fock_probabilities)
+                basis = [tuple(int(x) for x in v) for v in pq._math.fock.get_fock_space_basis(len(modes), 4)]
+                ev += 1
+                want = tuple((1, 0, 2)[m] for m in modes)
+                if abs(dict(zip(basis, probs)).get(want, 0.0) - 1.0) > 1e-9:
+                    fails.append(("FockState.reduced", "ordered tuple", modes, None))
+    except Exception as e:      # noqa: BLE001
+        fails.append(("FockState.reduced", f"raised {type(e).__name__}: {e}"[:160], None, None))
+    # fermionic Gaussian simulator: a gate on a descending mode tuple = the embedded gate = the relabelled gate; disjoint gates commute
+    try:
+        def ham(A, B):
+            return np.block([[-A.conj(), B], [-B.conj(), A]])
+
+        def emb(H, modes, dd):
+            idx = np.concatenate([np.array(modes), np.array(modes) + dd])
+            E = np.zeros((2 * dd, 2 * dd), dtype=complex)
+            E[np.ix_(idx, idx)] = H
+            return E
+
+        def frun(ins, dd):
+            return pq.fermionic.GaussianSimulator(d=dd).execute_instructions([pq.NumberState([1, 0, 1, 0][:dd])] + ins).state.covariance_matrix
+
+        Am = np.array([[0.3, 0.2 + 0.5j], [0.2 - 0.5j, -0.7]])
+        Bm = np.array([[0.0, 0.4 - 0.1j], [-0.4 + 0.1j, 0.0]])
+        H = ham(Am, Bm)
+        Hs = ham(Am[np.ix_([1, 0], [1, 0])], Bm[np.ix_([1, 0], [1, 0])])
+        G = pq.fermionic.GaussianHamiltonian
+        for modes in ((2, 0), (1, 0), (2, 1), (0, 2)):
+            a = frun([G(hamiltonian=H).on_modes(*modes)], 3)
+            b = frun([G(hamiltonian=emb(H, modes, 3)).on_modes(0, 1, 2)], 3)
+            c = frun([G(hamiltonian=Hs).on_modes(*modes[::-1])], 3)
+            ev += 1
+            if np.max(np.abs(a - b)) > 1e-9 or np.max(np.abs(a - c)) > 1e-9:
+                fails.append(("fermionic.GaussianSimulator", "gate on ordered tuple = embedded = relabelled", modes,
+                              float(max(np.max(np.abs(a - b)), np.max(np.abs(a - c))))))
+        g1, g2 = G(hamiltonian=H).on_modes(3, 1), G(hamiltonian=Hs).on_modes(0, 2)
+        s12, s21 = frun([g1.copy(), g2.copy()], 4), frun([g2.copy(), g1.copy()], 4)
+        ev += 1
+        if np.max(np.abs(s12 - s21)) > 1e-9:
+            fails.append(("fermionic.GaussianSimulator", "disjoint-commutation", ((3, 1), (0, 2)), float(np.max(np.abs(s12 - s21)))))
+        distinct.add("fermionic")
+    except Exception as e:      # noqa: BLE001
+        fails.append(("fermionic.GaussianSimulator", f"raised {type(e).__name__}: {e}"[:160], None, None))
     if fails:
         run.failed("C16/bounded/relabelling-and-helpers", "rtc", "enumeration", what=f"{len(fails)} bounded check(s) fail; first: {fails[0]}",
                    counterexample={"cases": [repr(f) for f in fails[:8]]}, replay={"kind": "bounded"}, reproduced=True)
     run.bounded_result("C16/bounded/mode-bookkeeping-helpers+Fock-relabelling", domain="Simulator._remap_modes/_remap_modes_inverse/"
                        "_delete_modes_from_active on every active subset of range(d), d<=5, every ordered sub-tuple; "
-                       f"{n_prog} random programs on PureFock/Fock simulators (relabelled, disjoint gates swapped)",
+                       f"{n_prog} random programs on PureFock/Fock simulators (relabelled, disjoint gates swapped); deterministic routing "
+                       "through permutation interferometers with post-selection / measurement tuples in every order (Passive, PureFock, "
+                       "Fock); FockState.reduced on every ordered tuple; fermionic Gaussian gates on descending tuples",
                        bound="d<=5 helpers exhaustive; Fock d=3 cutoff 4 tol 1e-9", evaluations=ev, distinct=len(distinct), failures=len(fails))
 
 
